@@ -198,6 +198,34 @@ namespace options
                 continue;
             }
 
+            if (it->is_short() && it->as_short_list().size() > 1)
+            {
+                // several short names in one argument, every single one of them has to be a toggle
+                auto toggles = get_all_toggles();
+
+                for (auto& short_name : it->as_short_list())
+                {
+                    auto is_toggle = false;
+
+                    for (auto& toggle : toggles)
+                    {
+                        is_toggle = is_toggle || toggle.second->short_name() == short_name;
+                    }
+
+                    if (!is_toggle)
+                    {
+                        raise<parsing_error>("Argument '", it->data(), "' could not be parsed.");
+                    }
+                }
+
+                if (!try_parse_as_toggle(*it))
+                {
+                    raise<parsing_error>("Argument '", it->data(), "' could not be parsed.");
+                }
+
+                continue;
+            }
+
             if (try_parse_as_option(get_all_options(), it, args.end()) ||
                 try_parse_as_option(get_all_multi_options(), it, args.end()) ||
                 try_parse_as_toggle(*it))
